@@ -231,11 +231,15 @@ func VerifC09_JailedHasNoPower() {
 	vEndBlock(e, tm, "C09.pre")
 	key0 := e.Pubs[0].RawBytes()
 	zz.Assert("C09.staked-has-power", tm.find(key0) >= 0)
-	cause := zz.Choice("cause", 2)
+	cause := zz.Choice("cause", 3)
 	switch cause {
 	case 0:
 		e.K.JailValidator(e.Ctx, e.Addrs[0])
-	case 1: // double sign through BeginBlocker
+	case 1, 2: // double sign through BeginBlocker (2: the validator is already jailed, e.g. for downtime, when the evidence arrives)
+		if cause == 2 {
+			e.K.JailValidator(e.Ctx, e.Addrs[0])
+			vEndBlock(e, tm, "C09.downtime-jailed")
+		}
 		e.K.SetPreviousProposer(e.Ctx, e.Addrs[1])
 		req := abci.RequestBeginBlock{Header: abci.Header{ProposerAddress: e.Addrs[1]},
 			ByzantineValidators: []abci.Evidence{{Type: "duplicate/vote", Validator: abci.Validator{Address: e.Addrs[0], Power: 1}, Height: e.Ctx.BlockHeight() - 1, Time: e.Ctx.BlockHeader().Time}}}
@@ -245,13 +249,23 @@ func VerifC09_JailedHasNoPower() {
 	zz.Assert("C09.jailed-absent-from-tendermint-set", tm.find(key0) < 0)
 	vEndBlock(e, tm, "C09.still-jailed")
 	zz.Assert("C09.jailed-stays-absent", tm.find(key0) < 0)
-	if cause == 1 {
+	if cause >= 1 {
 		info, _ := e.SigningInfo(0)
 		zz.Assert("C09.double-sign-tombstones-forever", info.Tombstoned && info.JailedUntil.Equal(types.DoubleSignJailEndTime))
 		// no later unjail succeeds, however far the clock advances
 		e.Advance(time.Duration(zz.Int64("years", 0, 5000))*365*24*time.Hour, 1)
 		res := NewHandler(e.K)(e.Ctx, types.MsgUnjail{ValidatorAddr: e.Addrs[0]})
 		zz.Assert("C09.tombstoned-never-unjailed", !res.IsOK())
+		// not even after staking again (the conviction burned the whole stake and left the validator unstaked)
+		if zz.Choice("restake", 2) == 1 {
+			st := NewHandler(e.K)(e.Ctx, types.MsgStake{PubKey: e.Pubs[0], Value: sdk.NewInt(2000000)})
+			res = NewHandler(e.K)(e.Ctx, types.MsgUnjail{ValidatorAddr: e.Addrs[0]})
+			zz.Assert("C09.tombstoned-never-unjailed-after-restake", !res.IsOK())
+			_ = st
+			batch := keeper.EndBlocker(e.Ctx, e.K)
+			zz.Assert("C09.tombstoned-restake-batch-applicable", tm.apply(batch) == "")
+			zz.Assert("C09.tombstoned-stays-out-of-the-set", tm.find(key0) < 0)
+		}
 	} else {
 		res := NewHandler(e.K)(e.Ctx, types.MsgUnjail{ValidatorAddr: e.Addrs[0]})
 		zz.Assert("C09.unjail-after-plain-jail", res.IsOK())
